@@ -18,3 +18,4 @@ PROP = {'engine': 'core',
                'Clear is not part of the property',
  'technique': 'property-based testing (rapid), stateful model-based: abstract latch as reference model'}
 PROP['rule'] += " Round-6 correction of the harness: a cleared barrier expects its initial count (as a new one does); the model says so and the waiters are judged right after Clear, before the harness sets the counts for the next use (SetCount's own wake-up used to hide a missing one in Clear); a quarter of the single gates have initial count 0."
+PROP['rule'] += " Later addition: compound operation cancelclear (a cancellation immediately followed by the clearing, without letting the waiters settle in between, as a reset does): a parked waiter returns the cancellation error or waits on - or returns success if the cleared barrier is complete at once (initial count 0) - and never returns success from a barrier that is neither complete nor cancelled (this restored the sensitivity to a waiter that does not re-check after its wake-up, which the old harness had only through the accidental pair Clear+SetCount)."
